@@ -205,6 +205,31 @@ var injectors = []injector{
 	{"loop-var-outside-loop", func(r *RNG, fs []srcFile) ([]srcFile, bool) {
 		return bodySite(r, fs, []string{"{foreach $zq in [1]}{$zq}{/foreach}{$zq}", "{foreach $zq in $zq}{$zq}{/foreach}", "{foreach $zq in [1]}{$zq}{ifempty}{$zq}{/foreach}", "{for $zq in range(2)}x{/for}{$zq}"}[r.Intn(4)])
 	}},
+	// index / isFirst / isLast speak about the variable of an enclosing loop: of a let, of a loop variable whose loop
+	// has ended, or of anything that is not a plain variable, the renderer has no index to look up (it would look up
+	// a name that nothing binds)
+	{"loop-function-off-loop", func(r *RNG, fs []srcFile) ([]srcFile, bool) {
+		sn := []string{"{let $zq: 1/}{index($zq)}", "{let $zq}x{/let}{if isFirst($zq)}f{/if}", "{foreach $zq in [1]}{$zq}{/foreach}{let $zq: 2/}{isLast($zq)}",
+			"{foreach $zq in [[1]]}{index($zq[0])}{/foreach}", "{foreach $zq in [1]}{index($zq, 1)}{/foreach}", "{foreach $zq in [1]}{$zq}{index()}{/foreach}", "{foreach $zq in [1]}{$zq}{isFirst('zq')}{/foreach}",
+			"{foreach $zq in [1]}{$zq}{ifempty}{let $zq: 0/}{isLast($zq)}{/foreach}"}
+		return bodySite(r, fs, sn[r.Intn(len(sn))])
+	}},
+	// a command outside every template is never checked nor rendered: whatever rule it breaks would go unnoticed
+	{"command-outside-template", func(r *RNG, fs []srcFile) ([]srcFile, bool) {
+		sn := []string{"{$zzz}", "{if $zzz}x{/if}", "{call .doesNotExist /}", "{let $ij: 1 /}", "{let $unused: 1 /}", "{foreach $i in [1]}x{/foreach}{$i}", "{msg desc=\"d\"}{$zzz}{/msg}", "{css $zzz, a}"}
+		out := append([]srcFile(nil), fs...)
+		k := r.Intn(len(out))
+		c := out[k].content
+		snip := sn[r.Intn(len(sn))] + "\n"
+		if r.Bool() {
+			out[k].content = c + snip
+		} else if i := strings.Index(c, "{/template}\n"); i >= 0 {
+			out[k].content = c[:i+len("{/template}\n")] + snip + c[i+len("{/template}\n"):]
+		} else {
+			return nil, false
+		}
+		return out, true
+	}},
 	{"unused-param", func(r *RNG, fs []srcFile) ([]srcFile, bool) {
 		if r.Bool() {
 			return replaceFirstFrom(r, fs, "/**\n", "/**\n * @param zz\n")
